@@ -30,7 +30,13 @@ RULE = ("for every constructor registered in the working tree (enumerated by ref
         "schema line (smallest value, all conditional parameters present, random flag bits with random values) are decoded by "
         "constructor id and must give a value of that constructor that serialises back to them. c01.reg: the number of distinct "
         "registered ids equals the number of objects and enum members handed to tl.RegisterObjects / tl.RegisterEnums in the "
-        "sources, and every struct handed over is the type of some id. distinct = distinct operation lines")
+        "sources, and every struct handed over is the type of some id. c01.hint: bare vectors in an object position (alone, as the "
+        "result of an rpc_result, inside gzip_packed, both) of every element kind (int, uint, long, double, Bool, string, bytes, "
+        "pointers to constructors, boxed objects, vectors of vectors): tl.Marshal's bytes decoded by tl.DecodeUnknownObject with "
+        "the hints that describe them, 1 to 4 times with ONE hints slice object spread into every call (with and without spare "
+        "capacity holding sentinels, with and without hints left over): every decoding returns the original vector, and the "
+        "arguments - every slot of the hints slice up to its capacity, the input bytes, the marshalled value - are compared with "
+        "copies taken before the first call. distinct = distinct operation lines")
 
 
 def run(ctx):
